@@ -144,14 +144,21 @@ theorem listed_path_same_as_added (sent : List ApiAttr) (stored : List Attribute
 /-- the next hop given to AddPath is not shown by ListPath (nor are ORIGINATOR_ID / CLUSTER_LIST) -/
 theorem next_hop_not_listed :
     run current (.grpc (.prefix (.ip4 167772160) 8) [.nextHop (.ip4 3221225985)] []) =
-      .listed (.prefix (.ip4 167772160) 8) [.origin 0, .asPath []] none ∧
+      .listed (.prefix (.ip4 167772160) 8) [.origin 0, .asPath []] (some .notFound) ∧
     Spec.check (.grpc (.prefix (.ip4 167772160) 8) [.nextHop (.ip4 3221225985)] [])
-      (.listed (.prefix (.ip4 167772160) 8) [.origin 0, .asPath []] none) = .fail "listed-path-lacks-next-hop" := by
+      (.listed (.prefix (.ip4 167772160) 8) [.origin 0, .asPath []] (some .notFound)) = .fail "listed-path-lacks-next-hop" := by
   refine ⟨?_, by decide⟩
   simp [run, netFromApi, ApiNlri.strict, hostBitsClear, netFromApi0, current, localPath, convertAll, fromApi,
     ApiAttr.strict, fromApi0, AStr.parse4, newWithBin, canonicalFlags, Attribute.valueLen, maxAttrValue,
     beN, keepAttrs, Out.map, originIgp, emptyAsPath, modelledCode, listAttrs, toApi, Attribute.value,
-    Attribute.binary, asPathToSegs, nlriToApi, rpkiShown]
+    Attribute.binary, asPathToSegs, nlriToApi, rpkiShown, rpkiOrigin, findCode, asPathOrigin, rpkiState]
+
+/-- while no VRP is installed, ListPath shows NotFound for an IPv4 / IPv6 route (and nothing for the other
+    families), and computing it does not panic on a stored path -/
+theorem validation_without_vrps (n : Nlri) (sent : List ApiAttr) (stored : List Attribute)
+    (h : ∀ a ∈ stored, WF a) :
+    ∃ v, rpkiShown [] n stored = .ok v ∧ Spec.checkRpki (nlriToApi n) sent [] v = .ok :=
+  Rbgp.Api.rpkiShown_nil n sent stored h
 
 /-- ... and the listed form re-imports to the same stored value. -/
 theorem accepted_reimports_unchanged (x : ApiAttr) (a : Attribute) (hr : x.inRange = true)
